@@ -19,7 +19,8 @@ CHILDREN = [
     [('SC', 2), 'Y'],           # c4 spawns c2 and checks it (relays a failure), then yields
     [('SO', 3), ('FOR', ['Y'])],  # c5 spawns c3 reporting PT_CHILD_OK, then a loop with a yield
 ]
-SIMPLE = ['Y', 'W', 'U', 'X', 'F', 'XO', 'FO']
+# XOd / FOd: the condition is a double (0.5 when the environment says true): any scalar is a legal condition
+SIMPLE = ['Y', 'W', 'U', 'X', 'F', 'XO', 'FO', 'XOd', 'FOd']
 SPAWNS = ['SP', 'SC', 'CA', 'SO']
 
 
@@ -102,6 +103,10 @@ class Emitter:
             e = self.env(); C.append(ind + 'PT_EXIT_ON(E_env(E, %d));' % e); V.append(('EXIT_ON', e, 0))
         elif s == 'FO':
             e = self.env(); C.append(ind + 'PT_FAIL_ON(E_env(E, %d));' % e); V.append(('FAIL_ON', e, 0))
+        elif s == 'XOd':
+            e = self.env(); C.append(ind + 'PT_EXIT_ON(E_envd(E, %d));' % e); V.append(('EXIT_ON', e, 0))
+        elif s == 'FOd':
+            e = self.env(); C.append(ind + 'PT_FAIL_ON(E_envd(E, %d));' % e); V.append(('FAIL_ON', e, 0))
         elif isinstance(s, tuple) and s[0] in SPAWNS:
             k, c = s
             call = 'child%d(&E->cpt[%d], E)' % (c, cdepth)
